@@ -103,7 +103,7 @@ CHECKS = {
 }
 
 # properties whose quick check has been run green on the unchanged tree (others are listed as not yet claimed)
-READY = {"C01", "C05", "C08", "C09", "C12", "C13", "C14", "C15", "C16", "C17", "C19", "C20"}
+READY = {"C%02d" % i for i in range(1, 21)}
 NOT_YET = "check not built yet in this round (design in DESIGN.md section 3); no claim is made"
 
 NA = {}
